@@ -18,10 +18,12 @@ Back(d, r) == Op("backward", <<>>, -1, TRUE, TRUE, TRUE, TRUE, d, r, <<>>)
 Rev == Op("reverse", <<>>, -1, TRUE, TRUE, TRUE, TRUE, FALSE, TRUE, <<>>)
 Rem == Op("remove_absence", <<>>, -1, TRUE, TRUE, TRUE, TRUE, FALSE, TRUE, <<>>)
 Ins(L) == Op("insert_absence", <<>>, -1, TRUE, TRUE, TRUE, TRUE, FALSE, TRUE, L)
+\* indices relative to the current end of the logs (0 = the first step beyond the end)
+InsRel(L) == Op("insert_absence_rel", <<>>, -1, TRUE, TRUE, TRUE, TRUE, FALSE, TRUE, L)
 
 \* does the operation leave a simulated result behind / need one?
 Creates(o) == o.op \in {"simulate", "backward"} /\ o.initLog
-Needs(o) == \/ o.op \in {"reverse", "remove_absence", "insert_absence"}
+Needs(o) == \/ o.op \in {"reverse", "remove_absence", "insert_absence", "insert_absence_rel"}
             \/ (o.op = "simulate" /\ ~(o.initState /\ o.initLog))
             \/ (o.op = "initialize" /\ ~(o.state /\ o.log))
 
@@ -44,7 +46,8 @@ OpsC08 ==
     Init_(TRUE, TRUE), Init_(TRUE, FALSE), Init_(FALSE, TRUE),
     Back(FALSE, TRUE), Back(TRUE, FALSE), Back(TRUE, TRUE), Rev }
 \* C18: a simulated result, then any sequence of remove / insert calls
-OpsC18 == { Rem, Ins(<<0>>), Ins(<<1, 3>>), Ins(<<2, 40>>), Ins(<<3, 1>>), Ins(<<1, 2>>) }
+OpsC18 == { Rem, Ins(<<0>>), Ins(<<1, 3>>), Ins(<<2, 40>>), Ins(<<3, 1>>), Ins(<<1, 2>>),
+            InsRel(<<-2, 0>>), InsRel(<<-1, 0, 1>>) }
 HistsC18(n) ==
   { <<s>> \o h : s \in { Sim(<<>>, -1, TRUE, TRUE), Sim(<<1, 2>>, -1, TRUE, TRUE) },
                  h \in UNION { [1..k -> OpsC18] : k \in 1..n } }
